@@ -195,6 +195,61 @@ type ServerMessage struct {
 	Dialout *DialoutInternalClientMessage `json:"dialout,omitempty"`
 }
 
+// CheckValid checks that the payload required by the message type is present.
+// Messages created locally always fulfill this, so it only needs to be called
+// for messages received from other servers (e.g. on federation connections).
+func (r *ServerMessage) CheckValid() error {
+	switch r.Type {
+	case "":
+		return fmt.Errorf("type missing")
+	case "error":
+		if r.Error == nil {
+			return fmt.Errorf("error missing")
+		}
+	case "welcome":
+		if r.Welcome == nil {
+			return fmt.Errorf("welcome missing")
+		}
+	case "hello":
+		if r.Hello == nil {
+			return fmt.Errorf("hello missing")
+		}
+	case "bye":
+		// The "bye" payload is optional.
+	case "room":
+		if r.Room == nil {
+			return fmt.Errorf("room missing")
+		}
+	case "message":
+		if r.Message == nil {
+			return fmt.Errorf("message missing")
+		}
+	case "control":
+		if r.Control == nil {
+			return fmt.Errorf("control missing")
+		}
+	case "event":
+		if r.Event == nil {
+			return fmt.Errorf("event missing")
+		} else if err := r.Event.CheckValid(); err != nil {
+			return err
+		}
+	case "transient":
+		if r.TransientData == nil {
+			return fmt.Errorf("transient missing")
+		}
+	case "internal":
+		if r.Internal == nil {
+			return fmt.Errorf("internal missing")
+		}
+	case "dialout":
+		if r.Dialout == nil {
+			return fmt.Errorf("dialout missing")
+		}
+	}
+	return nil
+}
+
 func (r *ServerMessage) CloseAfterSend(session Session) bool {
 	if r.Type == "bye" {
 		return true
@@ -1067,6 +1122,67 @@ type EventServerMessage struct {
 
 	// Used for target "message"
 	Message *RoomEventMessage `json:"message,omitempty"`
+}
+
+func checkValidSessionEntries(entries []*EventServerMessageSessionEntry) error {
+	for _, entry := range entries {
+		if entry == nil {
+			return fmt.Errorf("session entry missing")
+		}
+	}
+	return nil
+}
+
+// CheckValid checks that the payload required by the event target / type is present.
+func (m *EventServerMessage) CheckValid() error {
+	switch m.Target {
+	case "room":
+		switch m.Type {
+		case "join":
+			return checkValidSessionEntries(m.Join)
+		case "change":
+			return checkValidSessionEntries(m.Change)
+		case "message":
+			if m.Message == nil {
+				return fmt.Errorf("message missing")
+			}
+		case "switchto":
+			if m.SwitchTo == nil {
+				return fmt.Errorf("switchto missing")
+			}
+		}
+	case "participants":
+		switch m.Type {
+		case "update":
+			if m.Update == nil {
+				return fmt.Errorf("update missing")
+			}
+		case "flags":
+			if m.Flags == nil {
+				return fmt.Errorf("flags missing")
+			}
+		case "message":
+			if m.Message == nil {
+				return fmt.Errorf("message missing")
+			}
+		}
+	case "roomlist":
+		switch m.Type {
+		case "invite":
+			if m.Invite == nil {
+				return fmt.Errorf("invite missing")
+			}
+		case "disinvite":
+			if m.Disinvite == nil {
+				return fmt.Errorf("disinvite missing")
+			}
+		case "update":
+			if m.Update == nil {
+				return fmt.Errorf("update missing")
+			}
+		}
+	}
+	return nil
 }
 
 func (m *EventServerMessage) String() string {
